@@ -80,7 +80,7 @@ _MISSING = object()
 def _lookup(d, k):
     # key equality must be type strict as well (1 vs True vs 1.0)
     for kk, v in d.items():
-        if type(kk) is type(k) and kk == k:
+        if (type(kk) is type(k) or (isinstance(kk, str) and isinstance(k, str))) and kk == k:
             return v
     return _MISSING
 
